@@ -32,7 +32,8 @@ EXPLANATION = (
     "as a relation over histories, modified-item sets of nested children, time-window eviction by duration.")
 ASSUMPTIONS = ["sul::dynamic_bitset set/reset/test behave as named", "KeySlotStore::insert/remove_slot report membership changes truthfully"]
 DECIDED = ["a disjointness invariant", "b lazy monotone roll-over", "d mask writes follow membership changes", "e tick window push",
-           "f polarity of ops tables"]
+           "f polarity of ops tables",
+           'k insertion decision tables of TSS/TSD insert_key / insert_key_move', 'l whole-collection move assignment scans current members with slot_live']
 NOT_DECIDED = ["value/delta relation over histories", "nested modified-item sets", "dynamic-list growth arithmetic", "time-window eviction"]
 
 
